@@ -1,7 +1,12 @@
 import Props.C08a
 import Props.C08b
 import Props.C08c
+import Props.C08d
 import Props.C08e
+import Props.C08f
+import Props.C08g
+import Props.C08h
+import Props.C08j
 /-!
 # C08 — conversions between formats preserve validity and identity; paired conversions undo each other
 
@@ -13,7 +18,8 @@ library has the paired conversion.
 
 `Props/C08p.lean` shared helpers, `C08a.lean` EAN family on the compact number, `C08e.lean` EAN family on separated
 presentations and the witnesses against the unrestricted statements, `C08b.lean` ISIN family, `C08c.lean` national
-identifiers.
+identifiers, `C08d.lean` Irish VAT and AIC, `C08f.lean` SIRET, `C08g.lean` ISAN, `C08h.lean` MEID, `C08i.lean`/`C08j.lean` bank accounts
+and IBAN (the registry through `Props.C11.Data.iban.db_eq`).
 
 | relation | theorems | status |
 |---|---|---|
@@ -28,6 +34,18 @@ identifiers.
 | CUI → RUC → DNI | `cui_to_ruc` (with inverse), `ruc_to_dni` (with inverse), `ruc_to_dni_company` | full |
 | GSTIN → PAN | `gstin_to_pan` | full |
 | SIREN → TVA | `siren_to_tva_partial`, `siren_to_tva_compact`, `siren_to_tva_pres`, `siren_to_tva_full_false` | false for every `x`: white space that `strip()` removes in front of the number |
+| SIRET → SIREN, SIRET → TVA | `to_siren_eq` (every input), `siret_to_siren_pres`, `siret_to_siren_full_false` | false for every `x`: full-width digits are valid but not counted by `to_siren` |
+| old → new Irish VAT | `ie_vat_convert_old`, `ie_vat_convert_new` | full |
+| AIC base 32 → base 10 | `aic_base32_to_base10` | `to_base32` not translated (`while`) |
+| CCC → IBAN → CCC | `ccc_to_iban_pres`, `ccc_to_iban_valid` (with `iban.validate(check_country=True)` and inverse) | ASCII presentations |
+| kontonr → IBAN → kontonr | `kontonr_to_iban_pres`, `kontonr_to_iban_valid_partial` (11 digits), `kontonr_to_iban_full_false` (7 digits, known defect), `kontonr_to_iban_witness_0000` | known defect + the optional `0000` prefix |
+
+| ISAN ± check characters | `isan_strip_add` (strip valid, add valid, strip∘add, uniqueness of the check characters), `isan_roundtrip` | full (every input `x`) |
+
+| MEID decimal → hex | `meid_dec_to_hex` (`validate`/`compact` of an 18-digit decimal MEID: 14 hex digits, valid, identity) | hex → decimal is in `meid.format`, not translated |
+
+Not stated: MEID hex → decimal (`meid.format` not translated: a variable changes type), German tax number
+(`de.stnr._get_formats` not translated), `it.aic.to_base32` (`while` loop).
 -/
 
 #print axioms Props.C08.issn_to_ean_valid
@@ -66,3 +84,20 @@ identifiers.
 #print axioms Props.C08.siren_to_tva_pres
 #print axioms Props.C08.siren_to_tva_witness
 #print axioms Props.C08.siren_to_tva_full_false
+#print axioms Props.C08.to_siren_eq
+#print axioms Props.C08.siret_to_siren_pres
+#print axioms Props.C08.siret_to_siren_witness
+#print axioms Props.C08.siret_to_siren_full_false
+#print axioms Props.C08.ie_vat_convert_old
+#print axioms Props.C08.ie_vat_convert_new
+#print axioms Props.C08.aic_base32_to_base10
+#print axioms Props.C08.ccc_to_iban_pres
+#print axioms Props.C08.kontonr_to_iban_pres
+#print axioms Props.C08.ccc_to_iban_valid
+#print axioms Props.C08.kontonr_to_iban_valid_partial
+#print axioms Props.C08.kontonr_to_iban_witness
+#print axioms Props.C08.kontonr_to_iban_full_false
+#print axioms Props.C08.kontonr_to_iban_witness_0000
+#print axioms Props.C08.isan_strip_add
+#print axioms Props.C08.isan_roundtrip
+#print axioms Props.C08.meid_dec_to_hex
